@@ -18,7 +18,7 @@ CHECKS["C01"] = dict(engine="E2-stateright + E3-bounded-exhaustive",
    design="4/C01")
 CHECKS["C02"] = dict(engine="E2-stateright + E3-bounded-exhaustive",
    technique="explicit-state / bounded-exhaustive exploration of the real VM with a reference-free oracle (carried state == state before, full PushState equality) at every fault point",
-   text="Same exploration as C01 (every instruction x boundary states x capacity patterns x BFS over sequences) with a reference-free oracle: whenever the real perform returns Err(e), e.state() must equal the clone taken before the call (all stacks, limits, inputs, output). Second half: for every (state, instruction, continuation Q) where the instruction fails recoverably, run_to_completion of [i]++Q under limit L must end exactly like Q under limit L-1 (the skipped instruction uses up its step like a no-op). The boundary family is exactly 'every point at which underflow or overflow can strike'.",
+   text="Same exploration as C01 (every instruction x boundary states x capacity patterns x BFS over sequences) with a reference-free oracle: whenever the real perform returns Err(e), e.state() must equal the clone taken before the call (all stacks, limits, inputs, output). Second half: for every (state, instruction, continuation Q) where the instruction fails recoverably, run_to_completion of [i]++Q under limit L must end exactly like Q under limit L-1 (the skipped instruction uses up its step like a no-op). The boundary family is exactly 'every point at which underflow or overflow can strike'. Blocks performed directly for every exec capacity 0..=5 x fill level x block length 0..=5: when the block does not fit the carried state equals the state before.",
    note="Trusted: PushState's derived PartialEq; states above their maximum (only producible through stack_mut().set_max_stack_size) are outside the property and not explored.",
    design="4/C02")
 
